@@ -698,6 +698,10 @@ class ChangeOfValueServices(Capability):
         # request is to cancel the subscription
         cancel_subscription = (confirmed is None) and (lifetime is None)
 
+        # a subscription without a lifetime is indefinite
+        if (not cancel_subscription) and (lifetime is None):
+            lifetime = 0
+
         # find the object
         obj = self.get_object_id(obj_id)
         if _debug: ChangeOfValueServices._debug("    - object: %r", obj)
@@ -776,6 +780,10 @@ class ChangeOfValueServices(Capability):
 
         # request is to cancel the subscription
         cancel_subscription = (confirmed is None) and (lifetime is None)
+
+        # a subscription without a lifetime is indefinite
+        if (not cancel_subscription) and (lifetime is None):
+            lifetime = 0
 
         # find the object
         obj = self.get_object_id(obj_id)
